@@ -145,6 +145,10 @@ package pogreb
 //@   ensures [C01] one-more-bucket: err == nil ==> idx.numBuckets == old(idx.numBuckets) + 1 && idx.numKeys == old(idx.numKeys)
 //@   ensures err: err != nil ==> isIOErr(err) || err == io.EOF
 //@   at call extend@1: hint aligned: idx.main.size & 511 == 0
+// a successful split has rewritten the chain it redistributed: the last bucket of the rebuilt old chain is what the disk
+// holds (the old overflow buckets went to the free list just before - if the old chain were left in place they would be
+// linked and free at once, and the next overflow allocation would overwrite live slots)
+//@   at return: assert [C01] split-chain-rewritten: err == nil ==> (forall p int :: 0 <= p && p < 31 ==> slotEncoded(fData[fidOf[updatedBucket.bucket.file.File]], int(updatedBucket.bucket.offset)+16*p, updatedBucket.bucket.slots[p])) && le64(fData[fidOf[updatedBucket.bucket.file.File]], int(updatedBucket.bucket.offset)+496) == uint64(updatedBucket.bucket.next)
 //@   at call insert@1: hint slot-in-log: slotInSeg(theDB().datalog, sl)
 //@   at call insert@2: hint slot-in-log: slotInSeg(theDB().datalog, sl)
 //@   modifies idx.freeBucketOffs, idx.freeBucketOffs[*], idx.level, idx.numBuckets, idx.splitBucketIdx, idx.main.size, idx.overflow.size, fData[fidOf[idx.main.File]], fLen[fidOf[idx.main.File]], fDur[fidOf[idx.main.File]], fData[fidOf[idx.overflow.File]], fLen[fidOf[idx.overflow.File]], fDur[fidOf[idx.overflow.File]]
